@@ -23,7 +23,7 @@ Failing(k) == {
   Upd(T1, k, SetU("v", [k |-> "lapp", l |-> Path("g"), r |-> Val(":s")]), One(":s", S1(115))),  \* list_append on non-lists
   PutC("c1", T1, k, NoCond, <<>>, One(":unused", Num(1)), FALSE),         \* unused value placeholder
   PutC("c1", T1, k, NoCond, One("#unused", "v"), <<>>, FALSE),            \* unused name placeholder
-  PutC("c1", T1, k @@ [v |-> Num(2)], Cond(Fn("begins_with", <<Path("g"), Val(":n")>>)), <<>>, One(":n", Num(1)), FALSE),  \* ill-typed literal
+  PutC("c1", T1, k @@ [v |-> Num(2)], Cond(Fn("attribute_type", <<Path("g"), Val(":n")>>)), <<>>, One(":n", Num(1)), FALSE),  \* ill-typed literal
   PutC("c1", T1, k @@ [v |-> Num(2)], Cond(Fn("attribute_not_exists", <<Path("h")>>)), <<>>, <<>>, FALSE),   \* refused when present
   UpdC("c1", T1, k, SetU("v", Val(":n")), Cond(Fn("attribute_exists", <<Path("g")>>)), <<>>, One(":n", Num(2)), FALSE),
   DelC("c1", T1, k, Cond(Cmp("=", Path("v"), Val(":n"))), <<>>, One(":n", Num(5)), FALSE, FALSE),
